@@ -15,6 +15,9 @@ type cfg04 struct {
 	subs    []subSpec
 	reverse bool // default scheduler prefers the newest thread
 	unlock  bool // scheduling point after every Unlock
+	// cancelSub: 1-based index of a subscription whose client goes away (its
+	// context is cancelled) at a moment the scheduler chooses; the others stay
+	cancelSub int
 }
 
 var initial = map[string][]string{"t1": {"a/b", "x"}, "t2": {"a/b"}}
@@ -87,6 +90,19 @@ func configs04(tier string) []xplore.Config {
 		out = append(out, xplore.Config{Name: fmt.Sprintf("attach during W(t1)=%s | %s", strings.ReplaceAll(scriptName(sc), "reset", "Reset"), subs[0]), Bound: bound,
 			Data: cfg04{writers: []writer{{"t1", sc}}, subs: []subSpec{subs[0]}}})
 	}
+	// two clients with nested paths, one of them leaves while the writer goes on
+	// (whatever the leaving client's removal prunes, the other's registration stays)
+	nestedA := subSpec{target: "t1", paths: []string{"a"}, mode: stream}
+	nestedB := subSpec{target: "t1", paths: []string{"a/b"}, mode: stream}
+	whole := subSpec{target: "t1", paths: []string{"*"}, mode: stream}
+	for _, sc := range [][]wop{{{"upd", "a/b"}}, {{"upd", "a/b"}, {"upd", "a/c"}}, {{"del", "a"}, {"upd", "a/b"}}} {
+		for _, pair := range [][2]subSpec{{nestedA, nestedB}, {whole, nestedB}} {
+			for _, leave := range []int{1, 2} {
+				out = append(out, xplore.Config{Name: fmt.Sprintf("W(t1)=%s | %s + %s, client %d leaves", scriptName(sc), pair[0], pair[1], leave), Bound: bound,
+					Data: cfg04{writers: []writer{{"t1", sc}}, subs: []subSpec{pair[0], pair[1]}, cancelSub: leave}})
+			}
+		}
+	}
 	// single-operation programs once more with a scheduling point after every
 	// Unlock (the window between "found the queue empty under its lock" and
 	// "started waiting for the wake-up")
@@ -144,6 +160,19 @@ func configs01(tier string) []xplore.Config {
 			}
 		}
 	}
+	// a second client subscribed below the first one's path goes away while the
+	// target keeps streaming: the remaining client must still get everything
+	whole := subSpec{target: "t1", paths: []string{"*"}, mode: stream}
+	leaf := subSpec{target: "t1", paths: []string{"a/b"}, mode: stream}
+	for _, sc := range [][]wop{{{"upd", "a/b"}}, {{"upd", "a/b"}, {"del", "a/b"}}, {{"upd", "a/c"}, {"upd", "a/b"}}} {
+		for _, rev := range []bool{false, true} {
+			name := fmt.Sprintf("relay W(t1)=%s | %s + %s, the second client leaves", scriptName(sc), whole, leaf)
+			if rev {
+				name += " [newest-first]"
+			}
+			out = append(out, xplore.Config{Name: name, Bound: bound, Data: cfg04{writers: []writer{{"t1", sc}}, subs: []subSpec{whole, leaf}, cancelSub: 2, reverse: rev}})
+		}
+	}
 	return out
 }
 
@@ -196,6 +225,9 @@ func run04(cfg xplore.Config, ch vrt.Chooser, trace bool) (xplore.Outcome, *vrt.
 				st.cancel()
 			})
 		}
+		if d.cancelSub > 0 {
+			vrt.GoNamed("client-leaves", func() { w.streams[d.cancelSub-1].cancel() })
+		}
 		settle()
 		// ---- phase 1: the system stopped changing
 		for i, ok := range w.wdone {
@@ -205,6 +237,9 @@ func run04(cfg xplore.Config, ch vrt.Chooser, trace bool) (xplore.Outcome, *vrt.
 			}
 		}
 		for i, st := range w.streams {
+			if i == d.cancelSub-1 {
+				continue // this client left: its stream ended, the others are judged
+			}
 			checkStream04(&out, w, d, i, st)
 		}
 		var obs []string
